@@ -1,13 +1,145 @@
 """C12 -- raising the acceptance threshold only removes constraints.
 
 Oracle: metamorphic relation between real runs of fresh Shapers at every
-ordered pair of a threshold grid (pipespec.check_monotone)."""
+ordered pair of a threshold grid (pipespec.check_monotone), the two anchor
+claims of the property (threshold 0 omits nothing observed, threshold 1 keeps
+only features of all the instances) judged against an independent recount over
+the SET of triples of the document, and "no figure exceeds its shape's instance
+count / 100 %".
+
+Streams: graphs as C01; the shape-map stream (vp.pipemap); documents in which
+statements occur more than once (typing statements and ordinary ones -- what a
+concatenation of dumps looks like): the pipeline model takes a LIST of triples,
+so such documents are inside the byte-exact correspondence; the oracle recounts
+on the set."""
 import random
+import re
 from fractions import Fraction
 
 from vp import pipeprops, pipespec, pipe, pipemap
 
 pipemap.install()      # shape-map runs (cfg["smap"]) go through Model.RunMap / Shaper(shape_map_raw=...)
+
+RC_CAP_REPEATED = "rc_repeated_typing_fills_cap"
+_ANCHOR = re.compile(r"^threshold 0 omits observed key .* of (\S+)$|^threshold 1 keeps key .* of (\S+) held by \S+ of the instances$")
+
+
+def dedup(ts):
+    """the set of triples of a document, in order of first occurrence"""
+    return list(dict.fromkeys(ts))
+
+
+def typing_multiplicities(ts, tau=pipe.RDF_TYPE):
+    """class -> number of typing STATEMENTS (what the header of the unchanged code counts: finding C10-F7)"""
+    n = {}
+    for s, p, o in ts:
+        if p == tau and o[0] != "L":
+            n[o[1]] = n.get(o[1], 0) + 1
+    return n
+
+
+def repeat_statements(r, ts, tau=pipe.RDF_TYPE):
+    """ts with some statements written again: 1..3 typing statements (1..3 further copies each) and, in half of
+    the documents, 1..3 ordinary statements; a copy lands right after its original, at the end of the document or
+    anywhere.  A class of k instances often ends up with >= k statements of a proper subset of them."""
+    out = list(ts)
+    typing = [t for t in ts if t[1] == tau and t[2][0] != "L"]
+    other = [t for t in ts if t[1] != tau]
+    picks = []
+    if typing:
+        for t in r.sample(typing, r.randint(1, min(3, len(typing)))):
+            picks += [t] * r.choice([1, 1, 1, 2, 2, 3])
+    if other and (r.random() < 0.5 or not typing):
+        for t in r.sample(other, r.randint(1, min(3, len(other)))):
+            picks += [t] * r.choice([1, 1, 2])
+    r.shuffle(picks)
+    for t in picks:
+        k = r.random()
+        if k < 0.35:
+            out.insert(out.index(t) + 1, t)
+        elif k < 0.65:
+            out.append(t)
+        else:
+            out.insert(r.randint(0, len(out)), t)
+    return out
+
+
+def thresholds_repeated(ts, r):
+    """the grid of pipe.thresholds_for plus every k/n boundary of the statement counts per class (the sizes the
+    unchanged code works with on such documents)"""
+    out = list(pipe.thresholds_for(dedup(ts), r))
+    for n in sorted(set(typing_multiplicities(ts).values())):
+        for k in range(1, n):
+            if (k, n) not in out:
+                out.append((k, n))
+    return out
+
+
+def repeated_stream(tier, rnd, n_quick, n_thorough):
+    n = n_thorough if tier == "thorough" else n_quick
+    cases = []
+    for i in range(n):
+        r = random.Random(rnd.getrandbits(48))
+        base = pipe.gen_graph(r, general=(i % 3 != 0), max_nodes=r.choice([3, 4, 6]))
+        ts = repeat_statements(r, base)
+        cfg = pipeprops.random_cfg(r, base, i)
+        grid = sorted(set(thresholds_repeated(ts, r)), key=lambda t: Fraction(*t))
+        if len(grid) > 7:
+            grid = [grid[0]] + sorted(r.sample(grid[1:-1], 5), key=lambda t: Fraction(*t)) + [grid[-1]]
+        runs = []
+        for t in grid:
+            c = dict(cfg)
+            c["thr"] = t
+            runs.append((ts, c))
+        cases.append({"runs": runs, "meta": {"stream": "repeated", "i": i,
+                                             "repeated": len(ts) - len(base)}})
+    return cases
+
+
+def figures_within_bounds(docs):
+    """no figure of a shape exceeds the shape's own instance count, no ratio exceeds 100 % (the figure of the merged
+    NONLITERAL alternative is exempt: known finding C12-F1)"""
+    fails = []
+    for d in docs:
+        for sh in d["shapes"]:
+            for con in sh["constraints"]:
+                figs = [(con["values"][0] if len(con["values"]) == 1 else "OR", con["fig"])]
+                # a comment without 'obj:' is the figure of the merged non-literal alternative of a disjunction
+                figs += [(k.get("obj") or "merged", k["fig"]) for k in con["comments"] if "fig" in k]
+                for kind, (rs, cnt) in figs:
+                    # the merged figure adds the counts of the per-kind survivors (C12-F1 / C01-F3): not a count
+                    rc = "rc_nonliteral_sum_of_variants" if kind in ("NONLITERAL", "merged") else None
+                    if rs is not None and float(rs) > 100 + 1e-9:
+                        fails.append((rc, "%s: %s%s %s reports %s %% of the instances" % (
+                            sh["label"], "^ " if con["inv"] else "", con["pred"], kind, rs)))
+                    if cnt is not None and sh["n"] is not None and cnt > sh["n"]:
+                        fails.append((rc, "%s: %s%s %s reports %d instances, the shape has %d" % (
+                            sh["label"], "^ " if con["inv"] else "", con["pred"], kind, cnt, sh["n"])))
+    return fails
+
+
+def check_repeated(ts, cfgs, docs):
+    """the anchors are judged on the set of triples.  One adjustment, computed from the data: with instances_cap the
+    unchanged code lets every typing STATEMENT take a place under the cap (C10-F7's root cause: no membership test
+    in annotate_class), so a class whose first `cap` typing statements name fewer than `cap` nodes is profiled on
+    fewer instances than the set of triples gives it; anchor failures about such a class carry the tag of C12-F3."""
+    sts = dedup(ts)
+    fails, n = pipespec.check_monotone(sts, cfgs, docs)
+    cfg = cfgs[0]
+    starved = set()
+    if cfg["cap"] > 0:
+        by_list, by_set = pipespec.spec_instances(ts, cfg), pipespec.spec_instances(sts, cfg)
+        members = lambda inst, c: {i for i, cs in inst.items() if c in cs}
+        for c in {c for cs in by_set.values() for c in cs}:
+            if members(by_list, c) != members(by_set, c):
+                starved.add(c)
+    out = []
+    for rc, desc in fails:
+        m = _ANCHOR.match(desc)
+        if rc is None and m and (m.group(1) or m.group(2)) in starved:
+            rc = RC_CAP_REPEATED
+        out.append((rc, desc))
+    return out, n
 
 
 class Spec(pipeprops.PropSpec):
@@ -19,7 +151,9 @@ class Spec(pipeprops.PropSpec):
     rule = ("graphs as C01 x a grid of thresholds containing 0, 1, every k/n boundary of the class sizes present and a "
             "few odd values: one fresh Shaper per threshold, all ordered pairs compared; switch assignments "
             "round-robin; non-trivial = some class with >= 2 instances and some non-typing triple; plus the shape-map "
-            "stream (vp.pipemap; selectors answering IRIs) at a grid of thresholds on the k/n boundaries of the label sizes")
+            "stream (vp.pipemap; selectors answering IRIs) at a grid of thresholds on the k/n boundaries of the label "
+            "sizes; plus documents with repeated statements (1..3 typing statements and, in half of them, 1..3 "
+            "ordinary ones written 2..4 times) at a grid that also holds the k/n boundaries of the statement counts")
 
     def gen_cases(self, tier, rnd):
         n = 6000 if tier == "thorough" else 400
@@ -38,6 +172,7 @@ class Spec(pipeprops.PropSpec):
                 runs.append((ts, c))
             cases.append({"runs": runs, "meta": {"i": i}})
         cases += pipemap.stream(tier, rnd, 400, 4000, only_iri=True, grid=True)
+        cases += repeated_stream(tier, rnd, 200, 3000)
         return cases
 
     def oracle(self, case, impl):
@@ -45,9 +180,14 @@ class Spec(pipeprops.PropSpec):
             return [], 0
         ts = case["runs"][0][0]
         cfgs = [rn[1] for rn in case["runs"]]
+        docs = [pipe.canon(r[1]) for r in impl]
         if pipemap.is_map(cfgs[0]):
-            return pipemap.check_monotone_map(ts, cfgs, [pipe.canon(r[1]) for r in impl])
-        return pipespec.check_monotone(ts, cfgs, [pipe.canon(r[1]) for r in impl])
+            fails, n = pipemap.check_monotone_map(ts, cfgs, docs)
+        elif len(set(ts)) != len(ts):
+            fails, n = check_repeated(ts, cfgs, docs)
+        else:
+            fails, n = pipespec.check_monotone(ts, cfgs, docs)
+        return fails + figures_within_bounds(docs), n
 
 
 def run(tier, seed, replay=None):
